@@ -165,8 +165,20 @@ func c12BuildQuery(r *gen.R, name string, qtype, id uint16) (wire []byte, optDes
 			parts = append(parts, "cookie")
 		}
 		if r.P(0.4) {
-			o.Option = append(o.Option, &dns.EDNS0_SUBNET{Code: dns.EDNS0SUBNET, Family: 1, SourceNetmask: 32, Address: net.IPv4(8, 8, byte(r.Intn(256)), byte(r.Intn(256))).To4()})
-			parts = append(parts, "ecs")
+			switch r.Intn(4) {
+			case 0: // source prefix 0, the "do not forward my address" form of RFC 7871 (whatever it means to the proxy, it is the client's option: not relayed)
+				o.Option = append(o.Option, &dns.EDNS0_SUBNET{Code: dns.EDNS0SUBNET, Family: uint16(r.Range(1, 2)), SourceNetmask: 0, Address: net.IPv4zero.To4()})
+				if o.Option[len(o.Option)-1].(*dns.EDNS0_SUBNET).Family == 2 {
+					o.Option[len(o.Option)-1].(*dns.EDNS0_SUBNET).Address = net.IPv6zero
+				}
+				parts = append(parts, "ecs0")
+			case 1: // an IPv6 subnet of somebody else
+				o.Option = append(o.Option, &dns.EDNS0_SUBNET{Code: dns.EDNS0SUBNET, Family: 2, SourceNetmask: 48, Address: net.ParseIP("2001:db8:77::")})
+				parts = append(parts, "ecs6")
+			default:
+				o.Option = append(o.Option, &dns.EDNS0_SUBNET{Code: dns.EDNS0SUBNET, Family: 1, SourceNetmask: 32, Address: net.IPv4(8, 8, byte(r.Intn(256)), byte(r.Intn(256))).To4()})
+				parts = append(parts, "ecs")
+			}
 		}
 		if r.P(0.3) {
 			o.Option = append(o.Option, &dns.EDNS0_PADDING{Padding: make([]byte, r.Intn(40))})
